@@ -184,6 +184,7 @@ func runC16(c *Ctx) {
 	check("scanStatement", stmts, "statement")
 	check("scanExpression", exprs, "expression")
 	check("scanExpressionForDangerousFunctions", exprs, "expression")
+	c16OperatorCase(c, p)
 	c16Threshold(c, p)
 	c16Severity(c, p, sec.Types)
 	c16Counts(c, p)
@@ -748,4 +749,55 @@ func c16DoubleWalk(c *Ctx, p *core.Prog) {
 		}
 	}
 	r.OK("single-walk", "scan", "-", sprintf("%d pairs of walker calls on a common node examined", n))
+}
+
+// c16OperatorCase: operators and keywords reach the tree in the letter case the user typed (BinaryExpression.Operator
+// is "and" for `a and b`). A scanner decision that compares such a field with an upper-case word case-sensitively sees
+// `x = 1 and 1=1` differently from `x = 1 AND 1=1`.
+func c16OperatorCase(c *Ctx, p *core.Prog) {
+	r := c.R
+	r.Rule("operator-case", "in pkg/sql/security a node field that the parser fills with token text as written is compared with a word only after strings.ToUpper / ToLower or with strings.EqualFold")
+	saved := rawTextFields
+	rawTextFields = computeRawTextFields(p)
+	defer func() { rawTextFields = saved }()
+	var fields []string
+	for k := range rawTextFields {
+		fields = append(fields, k)
+	}
+	sort.Strings(fields)
+	r.Extra("raw_text_ast_fields", fields)
+	n := 0
+	for _, fn := range p.SrcFuncs("pkg/sql/security") {
+		seq := map[string]int{}
+		for _, b := range fn.Blocks {
+			for _, in := range b.Instrs {
+				bo, ok := in.(*ssa.BinOp)
+				if !ok || !(bo.Op == token.EQL || bo.Op == token.NEQ) {
+					continue
+				}
+				k, other := bo.Y, bo.X
+				if _, isC := core.ConstString(k); !isC {
+					k, other = bo.X, bo.Y
+				}
+				s, isC := core.ConstString(k)
+				if !isC || !hasLetter(s) {
+					continue
+				}
+				t := literalTaint(other, 0, map[ssa.Value]bool{})
+				if t == notLit {
+					continue
+				}
+				n++
+				seq[s]++
+				key := core.FnName(fn) + "|" + s + sprintf("#%d", seq[s])
+				if t == normLit {
+					r.OK("operator-case", key, p.Pos(bo.Pos()), "compared after ToUpper/ToLower")
+				} else {
+					r.Violate("operator-case", key, p.Pos(bo.Pos()), "a node field holding token text as written is compared case-sensitively with \""+s+"\": the same query in another letter case is scanned differently")
+				}
+			}
+		}
+	}
+	r.Floor("operator-case", n, 3, "comparisons of as-written node text with words in the scanner")
+	r.Floor("operator-case", len(fields), 3, "AST fields filled with token text as written")
 }
